@@ -71,7 +71,7 @@ func RangeMapAny[M ~map[K]V, K comparable, V any](m M, site string) iter.Seq2[K,
 //go:norace
 func noteUncontrolled(site string) {
 	if s := cur; s != nil {
-		s.stats.Faults["uncontrolled.map"]++
-		s.stats.SitesSeen["UNCONTROLLED "+site]++
+		s.faults.add("uncontrolled.map", 1)
+		s.sitesSeen.add("UNCONTROLLED "+site, 1)
 	}
 }
